@@ -672,7 +672,10 @@ class TracedSolver(Solver):
                     raised = type(e).__name__
                     raise
                 finally:
-                    solver.rec.emit("NewtonStep", k=k[0], raised=raised)
+                    ctx = getattr(solver, "_trial_ctx", None)
+                    # the Newton system of a trial is built for exactly the step size / penalty of that trial
+                    same = bool(ctx is None or (float(dt) == float(ctx[2]) and float(rho) == float(ctx[1])))
+                    solver.rec.emit("NewtonStep", k=k[0], raised=raised, trialArgs=same)
                     k[0] += 1
 
             meth.step = step
